@@ -284,6 +284,9 @@ func genWhereRange(r *rand.Rand) filter {
 func genWherein(r *rand.Rand) filter {
 	name := pick(r, []string{"f", "f", "n", "g"})
 	k := 1 + r.Intn(4)
+	if r.Intn(5) == 0 {
+		k = 16 + r.Intn(25) // long lists (an implementation may switch to a lookup table)
+	}
 	toks := []string{"WHEREIN", name, strconv.Itoa(k)}
 	var vals []fval
 	kinds := map[string]bool{}
@@ -305,6 +308,9 @@ func genWherein(r *rand.Rand) filter {
 		if kinds[kn] {
 			ks = append(ks, kn)
 		}
+	}
+	if k >= 16 {
+		ks = append(ks, "long")
 	}
 	return filter{kind: "wherein", shape: "in:" + strings.Join(ks, ","), toks: toks,
 		pred: func(o *mobj) bool {
